@@ -70,6 +70,37 @@ func propC07(c *ctx) error {
 		}
 	}
 	res.Distribution["library_load_orders"] = len(perms)
+	// every registered name — file or fragment — is a template of its own: GetTemplate finds it and executing it renders the
+	// fragment's content (the partial-page use)
+	{
+		var files [][2]string
+		for _, n := range names {
+			files = append(files, [2]string{n, lib[n]})
+		}
+		files = append(files, [2]string{"extra.html", `a<p :define="f1">F</p>b<div :define="f2"> <i :text="${n}">x</i> </div>`})
+		rc := &renderCase{Files: files, Tpl: "page.html", Data: data.j}
+		if m, lerr, p := implLoad(rc, nil); lerr == nil && p == nil {
+			alone := map[string]string{"f1": "F", "f2": "<i>7</i>", "inner": "<u>in</u>", "row": "<b>it</b>", "foot": "<i>7</i>", "extra.html": "ab", "row.html": "visible text of row.html"}
+			for _, name := range m.names {
+				t, err := m.tm.GetTemplate(name)
+				res.S3Checked++
+				res.count("fragments_executed_alone")
+				if err != nil || t == nil {
+					res.violate(J{"files": files, "name": name}, "a template", fmt.Sprint(err), "a registered name (file or fragment) is not found by GetTemplate")
+					continue
+				}
+				if want, ok := alone[name]; ok {
+					var sb strings.Builder
+					d, _, _ := (&renderCase{Data: vMap(kv{"n", vInt(7)}, kv{"it", vStr("it")}).j}).goData(&callLog{})
+					if err := t.Execute(&sb, d); err != nil || sb.String() != want {
+						res.violate(J{"files": files, "name": name}, want, J{"out": sb.String(), "err": fmt.Sprint(err)}, "executing a fragment on its own does not render the fragment's content")
+					}
+				}
+			}
+		} else {
+			res.SelfTest = append(res.SelfTest, "C07 library + extra file does not load")
+		}
+	}
 	// single-clause cases with exact expectations
 	type tc struct{ files [][2]string; tpl, want, errFlag string }
 	cases := []tc{
